@@ -116,6 +116,7 @@ class Interp:
         self._ids = itertools.count(1)
         self._seq = itertools.count(1)
         self.stack = []
+        self.assumed_types = {}    # receiver term -> class name learned from CHA resolution
         self.unresolved = []       # (loc, text)
         self.resolved_calls = 0
         self.total_calls = 0
@@ -338,7 +339,16 @@ class Interp:
         for n in assigned:
             if saved[n] is not None:
                 body_st.env[n] = ("loopcarried", n, lid)
-        self._assign(s.target, ("elem", it, lid), body_st, act, s)
+        elem = ("elem", it, lid)
+        if it[0] == "listobj":
+            h = self.heap[it[1]]
+            apps = [d for d in h["dyn"] if d[0] == "append"]
+            if not h["elts"] and len(apps) == 1 and len(h["dyn"]) == 1 and len(apps[0][1]) == 1:
+                # a list built by a single append inside a loop: iterating over it visits
+                # the appended term once per producer iteration
+                elem = apps[0][1][0]
+                self.loops[lid]["via_append"] = True
+        self._assign(s.target, elem, body_st, act, s)
         nret = len(act.returns)
         nev = len(self.events)
         end = self._block(s.body, body_st, act)
@@ -575,6 +585,18 @@ class Interp:
         ci = self.class_of(base)
         if k == "classref":
             ci = self.types.class_by_name.get(base[1])
+        if ci is None and k == "attr":
+            # polymorphic receiver (e.g. self.action_space: Flat | Parameterised): one case per
+            # possible class, guarded by an opaque type-test atom
+            bn = self.type_name(base[1])
+            ts = sorted(self.types.lookup_attr(bn, base[2])) if bn else []
+            if len(ts) > 1:
+                cis = [self.types.class_by_name.get(x) for x in ts]
+                if all(c is not None and c.find_method(name) is not None for c in cis):
+                    return ("cases", tuple(
+                        ((("istype", base, c.name),),
+                         self._getattr(("typed", c.name, base), name, st, act, node))
+                        for c in cis))
         if ci is not None:
             m = ci.find_method(name)
             if m is not None:
@@ -584,31 +606,39 @@ class Interp:
             oc, ex = ci.find_class_attr(name)
             if ex is not None:
                 # class-level attribute: fold if constant and never re-assigned at run time
-                if not self._class_attr_mutable(oc, name):
+                kind = self._class_attr_kind(oc, name)
+                if kind == "const":
                     ok, v = self.repo.class_const(oc, name)
                     if ok:
                         return self._const_term(v)
+                if kind == "instance" and k != "classref":
+                    return ("attr", base, name)
                 return ("clsattr", oc.name, name)
         return ("attr", base, name)
 
-    def _class_attr_mutable(self, ci, name):
-        """True if the class-level attribute is re-assigned at run time (through
-        cls.X / ClassName.X) or shadowed by an instance attribute (self.X = ...)"""
+    def _class_attr_kind(self, ci, name):
+        """'const'   : never assigned outside the class body
+           'instance': shadowed by an instance attribute (self.X = ...)
+           'class'   : re-assigned at run time through cls.X / ClassName.X"""
         key = (ci.name, name)
         cache = self.repo.__dict__.setdefault("_mut_cache", {})
         if key not in cache:
-            mut = False
+            kind = "const"
             family = set(self.repo.subclasses(ci)) | set(ci.mro())
             for c in self.repo.all_classes():
                 for fi in list(c.methods.values()) + list(c.setters.values()):
+                    first = fi.params[0] if fi.params else None
                     for n in ast.walk(fi.node):
                         if isinstance(n, ast.Attribute) and isinstance(n.ctx, ast.Store) \
                                 and n.attr == name and isinstance(n.value, ast.Name):
                             if n.value.id == ci.name:
-                                mut = True
-                            elif n.value.id in ("cls", "self") and c in family:
-                                mut = True
-            cache[key] = mut
+                                kind = "class"
+                            elif c in family and n.value.id == first:
+                                if fi.flavour == "classmethod":
+                                    kind = "class"
+                                elif kind != "class":
+                                    kind = "instance"
+            cache[key] = kind
         return cache[key]
 
     def _e_Subscript(self, e, st, act):
@@ -794,6 +824,8 @@ class Interp:
     def type_name(self, t, _d=0):
         if _d > 6 or not isinstance(t, tuple) or not t:
             return None
+        if t in self.assumed_types:
+            return self.assumed_types[t]
         k = t[0]
         if k == "obj":
             return t[1]
@@ -893,6 +925,10 @@ class Interp:
             a = self._call_term(ft[2], args, kwargs, star, dstar, st.fork(ft[1]), act, e)
             b = self._call_term(ft[3], args, kwargs, star, dstar, st.fork(("not", ft[1])), act, e)
             return a if a == b else ("phi", ft[1], a, b)
+        if k == "cases":
+            return mk_cases((pc, self._call_term(t, args, kwargs, star, dstar,
+                                                 _State(st.env, st.pc + tuple(pc)), act, e))
+                            for pc, t in ft[1])
         if k == "classref":
             self.resolved_calls += 1
             return self._construct(ft[1], args, kwargs, st, act, e, dstar)
@@ -924,7 +960,7 @@ class Interp:
                 nargs = len(args) + len(kwargs)
                 for c in self.repo.all_classes():
                     m = c.methods.get(name)
-                    if m is not None and m.flavour in ("plain",):
+                    if m is not None and m.flavour in ("plain", "classmethod"):
                         np_ = len(m.params) - 1
                         nd = len(m.node.args.defaults)
                         if np_ - nd <= nargs <= np_ or m.node.args.kwarg or m.node.args.vararg:
@@ -938,7 +974,11 @@ class Interp:
                         tuple(sorted(kwargs.items())), None)
             if len(cands) == 1 and rcls is None:
                 self.resolved_calls += 1
-                return self._inline(cands[0], [recv] + args, kwargs, st, act, e, dstar=dstar,
+                m = cands[0]
+                if recv[0] not in ("const", "unknown"):
+                    self.assumed_types[recv] = m.cls.name
+                first = ("classref", m.cls.name) if m.flavour == "classmethod" else recv
+                return self._inline(m, [first] + args, kwargs, st, act, e, dstar=dstar,
                                     how="cha")
             if name in BUILTIN_METHODS or rcls is not None:
                 self.resolved_calls += 1
@@ -947,7 +987,7 @@ class Interp:
             return self._opaque_mcall(recv, name, args, kwargs, st, act, e)
         if k in ("dictobj", "listobj") or k in ("sub", "elem", "proj", "call", "mcall",
                                                   "loopcarried", "loopout", "unknown", "param",
-                                                  "global", "clsattr", "cases"):
+                                                  "global", "clsattr"):
             self.unresolved.append((f"{act.fi.module.path}:{e.lineno}",
                                     f"call of {k} term"))
             self._emit("call", st, e, act, fname="?dynamic", args=tuple(args),
@@ -1141,7 +1181,7 @@ class Interp:
         n0 = len(st.pc)
         if len(rets) == 1:
             return rets[0][1]
-        return ("cases", tuple((tuple(pc[n0:]), t) for pc, t in rets))
+        return mk_cases((tuple(pc[n0:]), t) for pc, t in rets)
 
 
 def _conj(pc):
